@@ -619,9 +619,12 @@ struct Tally {
 }
 
 impl Tally {
+    /// Notes are grouped by their text up to the first "left:" (the sets printed by an
+    /// assertion differ from case to case); the first full text is kept as the example.
     fn note(&self, what: String, update: String) {
+        let class = what.split("left:").next().unwrap_or("").trim().to_string();
         let mut n = self.notes.lock().unwrap();
-        let e = n.entry(what).or_insert((0, update));
+        let e = n.entry(class).or_insert((0, format!("{update}: {what}")));
         e.0 += 1;
     }
 }
@@ -1208,12 +1211,12 @@ fn main() {
             t.second_update_removed_user_file_at_path_skipped_before.get(),
         "updates_that_failed_without_a_blocked_wanted_path_(not_claimed)": t.update_errors.get(),
         "updates_that_panicked_without_a_blocked_wanted_path_(not_claimed)": t.update_panics_unclaimed.get(),
-        "notes": t.notes.lock().unwrap().iter().map(|(k, v)| json!({"what": k, "count": v.0, "first_seen_with": v.1})).collect::<Vec<_>>(),
+        "notes": t.notes.lock().unwrap().iter().map(|(k, v)| json!({"what": k, "count": v.0, "first_example": v.1})).collect::<Vec<_>>(),
         "cases_dropped_because_the_obstacle_cannot_be_placed": t.unplaceable.get(),
         "cases_dropped_because_the_intermediate_snapshot_failed": t.snapshot_problems.get(),
     });
     for (what, (n, upd)) in t.notes.lock().unwrap().iter() {
-        println!("[C25] NOTE (not a verdict) x{n}, first with {upd}: {what}");
+        println!("[C25] NOTE (not a verdict) x{n}: {what} || first example: {upd}");
     }
     println!(
         "[C25] cases enumerated={} evaluated={} updates={} distinct states={} in-the-way={} vacuity={}",
